@@ -2,12 +2,26 @@
 validators, reply callback with deadline and PIT-token echo; both front-ends on the virtual loop."""
 import asyncio as aio
 
-from harness.appkit import Session, new_app, deliver, enc, ndn_types, nm
+from harness.appkit import Session, new_app, deliver, enc, ndn_types
 from harness.pitkit import lp_wrap, TICK_MS
 from harness import strict_tlv as st
 
 TOKENS = [None, b'\x01', b'\xaa' * 8, b'', bytes(range(32)), b'T' * 33]     # index -> PIT token bytes
 NONCE0 = 0x5000
+
+
+# The spec component "c" stands for an ImplicitSha256Digest component: a prefix may end in any component type, and an
+# Interest name may end in one (seed round 6: the handler lookup dropped a trailing digest component, attach did not).
+DIGEST_C = 'sha256digest=' + '5c' * 32
+
+
+def comp_uri(c):
+    return DIGEST_C if c == 'c' else c
+
+
+def nm(comps):
+    """spec name (sequence of short strings) -> URI string"""
+    return '/' + '/'.join(comp_uri(c) for c in comps)
 
 
 def name_repr(comps, kind):
@@ -17,7 +31,7 @@ def name_repr(comps, kind):
     if kind == 'uri':
         return uri
     if kind == 'strlist':
-        return list(comps)
+        return [comp_uri(c) for c in comps]
     if kind == 'byteslist':
         return [bytes(c) for c in formal]
     if kind == 'bytearraylist':
